@@ -50,7 +50,8 @@ def run(ctx, pid):
             if len(after) < NFORKS * (NFORKS - 1):
                 raise vf.ToolError("vacuous: only %d (ran-under, configured) pairs probed after a transaction" % len(after))
             res.extra["reconfigured_after_tx_pairs"] = len(after)
-        summ = vf.replay_edges(ctx, res, run_, "opcodes", [], name=name, binary=binary, expect_ops=OPS,
+        summ = vf.replay_edges(ctx, res, run_, "opcodes", [], name=name, binary=binary,
+                               expect_ops=[o for o in OPS if o != "run" or consts["TrackRan"] != '"none"'],
                                keyprefix="opcodes")
         if summ.get("tainted"):
             # a tainted edge is one whose history already diverged (reported at its root); say so
